@@ -287,10 +287,20 @@ fn gate_case(c: &(u64, Vec<Setter>, u8), obs: &mut Obs) -> CaseResult {
             ensure_eq!(decode(&bytes[k]), missing, "vector {} must be untouched", k);
         }
     }
-    // reset
+    // reset: every one of the 256 entries becomes a missing gate again, whatever it held (all entries
+    // are first overwritten with present gates through the raw bytes)
+    {
+        let filled = raw_entry(&idt[v as u8]);
+        let raw_mut = unsafe { &mut *(&mut *idt as *mut _ as *mut [[u8; 16]; 256]) };
+        for k in 0..256 {
+            raw_mut[k] = filled;
+        }
+    }
     idt.reset();
     let bytes = unsafe { &*(&*idt as *const _ as *const [[u8; 16]; 256]) };
-    ensure_eq!(decode(&bytes[v]), missing, "after reset()");
+    for k in 0..256 {
+        ensure_eq!(decode(&bytes[k]), missing, "vector {} after reset() of a table whose 256 entries all held a present gate", k);
+    }
     obs.add_evals(prog.len() as u64 + 1);
     if fields.len() >= 3 {
         let shape: Vec<u8> = prog
